@@ -18,6 +18,8 @@ def anomaly(line):
     for c, v in post.items():
         if not isinstance(v, dict):
             return "order %s is %s in the implementation state (foreign key / wrong instrument)" % (c, v)
+        if not isinstance(v["m"].get("t"), int):
+            return "order %s holds the exchange timestamp %s: no report carried it (timestamps of this driver have microseconds)" % (c, json.dumps(v["m"].get("t")))
         if v.get("s") == 99 or not isinstance(v.get("q"), int) or not isinstance(v["m"].get("f"), int):
             return "order %s holds a mixture of fields no request or report carried: %s" % (c, v)
     return None
